@@ -48,6 +48,12 @@ def dstepTokens (d : DState) (ts : List String) : DState × String :=
         | some st => (d, "ok " ++ showStore st)
         | none => (d, "nostore"))
      | none => (d, "bad-op"))
+  | ["crashj", f, k, c, j] =>
+    -- a crash image with arbitrary junk appended after it
+    (match f.toNat?, k.toNat?, c.toNat?, parseHexAux j.toList [] with
+     | some f, some k, some c, some jb =>
+       (d, showOpen (openStore f (crashImage (d.w.file f).hist k c ++ jb) cmpOfName))
+     | _, _, _, _ => (d, "bad-op"))
   | _ =>
     let (w', o) := stepTokens2 d.w ts
     ({ d with w := w' }, o)
